@@ -136,7 +136,7 @@ def check(case, ctx):
     Uarg = U
     if S.rot_is_axis(U, 0.0) and case.get("elem") is None and not case["f32"]:
         # an exactly axis-aligned orientation may well be typed as integers or nested lists by the caller
-        Uarg = np.round(U).astype(int) if case["rot"].get("i", 0) % 2 else [[int(round(x)) for x in row] for row in U]
+        Uarg = np.round(U).astype(int)
         ctx.event("inv/integer-typed-matrix")
     defect = O.ortho_defect(U)
     if defect < 1e-12:
